@@ -100,6 +100,8 @@ def check (pid : String) (j : Json) : Except String Verdict := do
       let expected := match w.r.s.cache rt n with | some v => s!"val:{v}" | none => "err"
       let got := match jStrD oj "get" "?" with | g => g
       if got != expected then w := { w with r := w.r.fail s!"{what}: the waiting lookup of {rtStr rt}/{n}: model {expected}, impl {got}" }
+      if !got.startsWith "val:" && stale.isNone && (w.r.s.cache rt n).isSome then
+        stale := some s!"{rtStr rt}/{n}: the lookup waited for the name, the control plane supplied it before the lookup's deadline, and the lookup ended with '{got}' (it was ended by a response to an older subscription that does not list the name)"
     | "push" =>
       let resp ← parseResp st
       w := w.step cfg T (.op (.push resp now)) what
